@@ -155,8 +155,28 @@ func isStartTLSConn(conn net.Conn) bool {
 //@ func (c *Client) handleQuotaRoot() (err error)
 //@   assume-kind assert-type findPendingCmdFunc returns a command for which the predicate (which tests this very type) returned true; higher-order contract not expressible
 
+// Capability bookkeeping leaves the connection state and the mirror alone
+// (the goroutine setCaps may start to request capabilities runs later and is
+// not part of this sequential contract).
+//
+//@ func (c *Client) setCaps(caps imap.CapSet)
+//@   props C12:post,pre@call
+//@   ensures c.state == old(c.state) && c.mailbox == old(c.mailbox)
+
+//@ func (c *Client) handleCapability() (err error)
+//@   props C12:post,pre@call
+//@   ensures c.state == old(c.state) && c.mailbox == old(c.mailbox)
+
+// readResponseData: the mirror's flag list changes only through a FLAGS
+// response (handleFlags) and the message count only through EXISTS / EXPUNGE
+// (handleExists, handleExpunge); in particular a PERMANENTFLAGS response code
+// leaves both alone.
+//
 //@ func (c *Client) readResponseData(typ string) (err error)
 //@   requires len(typ) > 0
+//@   ensures[C12] c.mailbox != nil && old(c.mailbox) != nil && !__called("Client.handleFlags") ==> __same(c.mailbox.Flags, old(c.mailbox.Flags))
+//@   ensures[C12] c.mailbox != nil && old(c.mailbox) != nil && !__called("Client.handleExists") && !__called("Client.handleExpunge") ==> c.mailbox.NumMessages == old(c.mailbox.NumMessages)
+//@   ensures[C12] c.mailbox != nil && old(c.mailbox) != nil ==> c.mailbox.Name == old(c.mailbox.Name)
 
 var _ *tls.Config // used by //@ func headers
 
